@@ -10,6 +10,20 @@ from ..terms import fmt, ZERO, num
 GETTERS_CASH_BALANCES = ('get_account_cash_balance',)     # hands out the dict itself when currency is None
 
 
+def _history_elsewhere(ctx):
+    """Portfolio.history is a property that is not the plain projection of one stored list (it is rebuilt from columns, or read off a ledger object whose own methods
+    append to it): the rule, which counts appends to `history`, does not see where entries are recorded"""
+    c = ctx.M.cls('Portfolio')
+    m = c.lookup('history') if c is not None else None
+    if m is None or not m.is_property:
+        return False
+    proj = [ch for ch, (cn_, pn_) in ctx.M.projections().items() if pn_ == 'history' and cn_ == 'Portfolio']
+    if not proj:
+        return True
+    # a projection into a helper object: followed only when nothing but Portfolio's own code appends to it
+    return any(len(ch) > 1 for ch in proj)
+
+
 def port_policy(caller, callee, depth):
     """inline private helpers and properties, keep public repo calls as events"""
     return default_policy(caller, callee, depth)
@@ -275,6 +289,10 @@ def s5_history(ctx):
                             key='C01.S5|%s|event-on-raise' % qn)
                 continue
             where = evs[0][0].site if evs else ctx.fn(qn).site()
+            if len(evs) != (1 if cw else 0) and _history_elsewhere(ctx):
+                ctx.undecided('C01.S5', '%s: one history entry per cash movement on path [%s]' % (qn, cond_str(p)), where,
+                              '%d entries seen for %d cash writes; Portfolio.history is no longer a list kept in a field of that name (or a plain projection of one)' % (len(evs), len(cw)))
+                continue
             if not ctx.require(len(evs) == (1 if cw else 0), 'C01.S5', '%s: one history entry per cash movement on path [%s]' % (qn, cond_str(p)), where,
                                __import__('qsverif.lib', fromlist=['read_marker']).read_marker(ctx, p) + '%d entries for %d cash writes' % (len(evs), len(cw)), key='C01.S5|%s|pairing' % qn):
                 continue
@@ -335,6 +353,12 @@ def s5_history(ctx):
                 pos = v
         if pos is None:
             ctx.undecided('C01.S5', 'opening entry guarded by starting_cash > 0', ctx.fn('Portfolio._initialise_portfolio_with_cash').site(), cond_str(p))
+            continue
+        from ..lib import read_marker
+        if len(evs) != (1 if pos else 0) and (not read_marker(ctx, p) or _history_elsewhere(ctx)):
+            # entries are recorded through something this rule does not follow (a ledger object's own method, columns behind a property)
+            ctx.undecided('C01.S5', 'opening history entry iff starting_cash > 0 [%s]' % cond_str(p), ctx.fn('Portfolio._initialise_portfolio_with_cash').site(),
+                          '%d entries seen; the history is kept through calls or storage the rule does not read' % len(evs))
             continue
         ctx.require(len(evs) == (1 if pos else 0), 'C01.S5', 'opening history entry iff starting_cash > 0 [%s]' % cond_str(p),
                     evs[0][0].site if evs else None, key='C01.S5|init|pairing')
